@@ -282,7 +282,11 @@ PROP_HARNESS = {
     "C20": ["forms__"],
 }
 
-for _p in ["C01", "C02", "C03", "C09", "C10", "C11", "C12", "C13", "C14", "C15", "C17", "C20"]:
+PROPS["C09"] = {
+    "quick": [("bvf_cmp", pair(i, j)) for (i, j) in [("u64", "u64"), ("u64", "u8"), ("u8", "u64")]],
+    "thorough": [("bvf_cmp", pair(i, j)) for i in W4 for j in W4],
+}
+for _p in ["C01", "C02", "C03", "C10", "C11", "C12", "C13", "C14", "C15", "C17", "C20"]:
     PROPS.setdefault(_p, {"quick": [], "thorough": []})
 PROPS["C19"]["debug_profile_too"] = ["fixedcap__"]
 PROPS["C04"]["quick"] += [("bvd_bitops", dict(U64, **BITOPS[o])) for o in ("and", "or", "xor")]
@@ -350,7 +354,10 @@ dyn_only("C02", "div_rem, /, %, /=, %= against u128 division for nine implementa
          "Contract units for div_rem (value-level loop invariant prototyped in notes/) are not yet woven; D7 (divisor longer than capacity) was found and fixed.")
 dyn_only("C03", "random histories of up to 6 public operations (23 kinds: edits, arithmetic/logic with operands of another implementation, shifts, rotations, slicing, read) followed by a comparison of EVERY observer and of the next operation against a freshly built vector with the same bits.",
          "The inductive argument (every unit establishes wf and a functional [bits] clause) holds for the units already under contract (see C04/C05/C06/C07/C08/C16/C18 evidence) but the audit over all public functions is not complete.")
-dyn_only("C09", "==, partial_cmp, <, >= against numeric comparison of the values for eight implementation pairings.", "Contract units for the comparison loops are not yet written.")
+MANIFEST_TEXT["C09"] = dict(
+    text=("Proof: PartialEq::eq and PartialOrd::partial_cmp between Bvf<I2,N2> and Bvf<I1,N1> (any two word sizes; chunk-wise comparison through get_int from the most significant chunk) are verified against the VALUE-level contract "
+          "`r == (val(a) == val(b))` resp. `r == Some(val(a).cmp(val(b)))`, using a proved theory of the unsigned value of a bit list (injectivity, order decided by the top differing bit). Reflexivity/symmetry/transitivity/totality follow because both are the same function of two naturals." + DYN_NOTE),
+    note=("Covered so far by proof: Bvf vs Bvf (u8..u64 words). Not yet under contract: Bvd/Bv comparisons, the delegating mixed-type impls, Ord::cmp (covered by the second engine only). " + TRUST_NOTE))
 dyn_only("C10", "a recording Hasher: equal values (same and different lengths, inline vs heap, spare capacity) must feed identical bytes.", "Hash units (uninterpreted hasher feed model prototyped) not yet woven; D8 was found and fixed.")
 dyn_only("C11", "TryFrom/From between the six native integer types and Bvf/Bvd/Bv in both directions, Bit conversions, slice conversions, against the documented length/value/error rules.", "Conversion units not yet written; D5 was found and fixed.")
 dyn_only("C12", "all From/TryFrom conversions between Bvf word sizes, Bvd and Bv (length, bits, NotEnoughCapacity exactly when too long), new/into_inner round trip.", "Conversion units not yet written (IArray get_int units are verified).")
